@@ -23,6 +23,7 @@ import random
 from vlib import c14_fmp, coqrun
 
 PROOF_FILES = ["C14R/Dret.v", "C14R/DretProofs.v", "C14R/PropsDret.v"]
+ALL_FILES = PROOF_FILES + ["C14R/Prune.v", "C14R/PruneProofs.v"]
 DEPS = []
 IMPORTS = ("From Verif Require Import C14R.Dret.\nOpen Scope string_scope.\nOpen Scope list_scope.\nOpen Scope Z_scope.\n")
 
@@ -33,6 +34,7 @@ def build(ctx, deps=None):
 
 def prebuild(ctx):
     build(ctx)
+    ctx.coq_build_cached(ALL_FILES, deps=DEPS, timeout=600)
 
 
 def _q(s):
@@ -297,6 +299,15 @@ def collect(ctx, rnd, stats):
 
 
 def part_dret(ctx, deps=None):
+    n = part_dret_only(ctx, deps)
+    try:
+        n += part_prune(ctx, deps)
+    except Exception as e:  # noqa
+        ctx.violation("correspondence-broken", "the FmpPrunePass part could not be run", {"error": repr(e)[:800]})
+    return n
+
+
+def part_dret_only(ctx, deps=None):
     b = build(ctx, deps)
     rnd = random.Random(ctx.seed * 7919 + 11)
     stats = {"family_programs": 0, "family_rejected_by_pipeline": 0, "evm_executions": 0, "export_errors": 0, "invocations": 0,
@@ -365,4 +376,451 @@ def part_dret(ctx, deps=None):
                        "test_dret_bad_return_order_can_clobber_later_source define it against), tied to the compiled code by EVM runs "
                        "of the family; mcopy = memmove on a byte map; only the cancun+ copy form (mcopy) is modelled")
     ctx.samples.append({"dret_functions": stats["with_dret"], "evm_executions": stats["evm_executions"]})
+    return stats["accepted"] + stats["evm_executions"]
+
+
+# ===============================================================================================================
+# FmpPrunePass
+PRUNE_FILES = ["C14R/Prune.v", "C14R/PruneProofs.v"]
+PRUNE_IMPORTS = ("From Verif Require Import C14R.Dret C14R.Prune.\nOpen Scope string_scope.\nOpen Scope list_scope.\nOpen Scope Z_scope.\n")
+
+
+def _outs(fn):
+    return [o.value for bb in fn.get_basic_blocks() for i in bb.instructions for o in i.get_outputs()]
+
+
+class PruneObserver:
+    """Wraps FmpPrunePass.run_pass; one sample per invocation.  With enabled=False the pass is skipped (the hidden param
+    is kept), for the differential runs."""
+
+    def __init__(self, enabled=True):
+        self.samples = []
+        self.errors = []
+        self.enabled = enabled
+
+    def __enter__(self):
+        from vyper.venom.passes.fmp_lowering import FmpPrunePass as P
+        self.P = P
+        self.orig = P.run_pass
+        obs = self
+
+        def run_pass(self_, *a, **kw):
+            fn = self_.function
+            if not obs.enabled:
+                if fn._fmp_signature is None:
+                    return obs.orig(self_, *a, **kw)        # keeps the pass' own panic
+                return None
+            try:
+                before, tb, ob, sb = export_fn(fn), str(fn), _outs(fn), fn._fmp_signature
+                hp = [i.output.value for i in fn.entry.instructions if i.opcode == "fmp_param"]
+            except Exception as e:  # noqa
+                before = None
+                obs.errors.append(f"{type(e).__name__}: {e}")
+            r = obs.orig(self_, *a, **kw)
+            if before is not None:
+                try:
+                    oa = set(_outs(fn))
+                    obs.samples.append({"name": fn.name.value, "before": before, "after": export_fn(fn), "text_before": tb,
+                                        "text_after": str(fn), "sig_before": sb, "sig_after": fn._fmp_signature,
+                                        "hidden": hp, "deleted": sorted(set(x for x in ob if x not in oa)),
+                                        "fmp_param_after": any(i.opcode == "fmp_param" for i in fn.entry.instructions)})
+                except Exception as e:  # noqa
+                    obs.errors.append(f"{type(e).__name__}: {e}")
+            return r
+
+        P.run_pass = run_pass
+        return self
+
+    def __exit__(self, *a):
+        self.P.run_pass = self.orig
+
+
+def prune_evaluate(samples, name="c14prune", shard=8, timeout=600):
+    exprs = []
+    for s in samples:
+        d = "[" + "; ".join(_q(x) for x in s["deleted"]) + "]"
+        exprs.append(f"[if prune_check {_q(s['hidden'][0] if s['hidden'] else '')} {d} {s['before']} {s['after']} then 1 else 0]")
+    return coqrun.eval_zlists(PRUNE_IMPORTS, exprs, name, shard=shard, timeout=timeout)
+
+
+M256 = 2 ** 256
+
+
+class PruneGen:
+    """caller / callee programs; the callee allocates with dalloca in ways the optimizer may or may not remove (unused
+    buffers, buffers in one arm of a branch, in a loop body, buffers that are really used), and returns a value that
+    is computed here as well."""
+
+    def __init__(self, rnd):
+        self.rnd = rnd
+
+    def program(self):
+        r = self.rnd
+        k1, k2, k3 = r.randint(1, 1000), r.randint(1, 1000), r.randint(1, 1000)
+        shape = r.choice(["dead", "dead2", "branch", "loop", "used", "usedbranch", "none"])
+        # a callee that never needs the FMP must name its return PC with the dedicated opcode: see PLAIN_RETPC_PROBE
+        c = ["    callee:", "      %a = param", "      %b = param", "      %retpc = " + ("retpc_param" if shape == "none" else "param")]
+        c.append(f"      %v0 = add %a, {k1}")
+        if shape == "dead":
+            c += ["      %p = dalloca 32", f"      %v = add %v0, %b"]
+            ev = lambda a, b: (a + k1 + b) % M256  # noqa
+        elif shape == "dead2":
+            c += ["      %p = dalloca %b", "      %q = dalloca 64", f"      %v = mul %v0, {k2}"]
+            ev = lambda a, b: ((a + k1) * k2) % M256  # noqa
+        elif shape == "branch":
+            c += ["      jnz %b, @t, @e", "    t:", "      %p = dalloca 32", f"      %v = add %v0, {k2}", "      jmp @j",
+                  "    e:", f"      %v = add %v0, {k3}", "      jmp @j", "    j:"]
+            ev = lambda a, b: (a + k1 + (k2 if b else k3)) % M256  # noqa
+        elif shape == "loop":
+            n = r.randint(1, 3)
+            c += ["      %i = 0", "      %v = %v0", "      jmp @head", "    head:", f"      %c = lt %i, {n}", "      jnz %c, @body, @exit",
+                  "    body:", "      %p = dalloca 32", f"      %v = add %v, {k2}", "      %i = add %i, 1", "      jmp @head", "    exit:"]
+            ev = lambda a, b: (a + k1 + n * k2) % M256  # noqa
+        elif shape == "used":
+            c += ["      %p = dalloca 32", "      mstore %p, %v0", "      %w = mload %p", f"      %v = add %w, %b"]
+            ev = lambda a, b: (a + k1 + b) % M256  # noqa
+        elif shape == "usedbranch":
+            c += ["      jnz %b, @t, @e", "    t:", "      %p = dalloca 32", "      mstore %p, %v0", "      %w = mload %p",
+                  f"      %v = add %w, {k2}", "      jmp @j", "    e:", "      %q = dalloca 64", f"      %v = add %v0, {k3}", "      jmp @j", "    j:"]
+            ev = lambda a, b: (a + k1 + (k2 if b else k3)) % M256  # noqa
+        else:
+            c += [f"      %v = xor %v0, %b"]
+            ev = lambda a, b: ((a + k1) % M256) ^ b  # noqa
+        c.append("      ret %retpc, %v")
+        m = ["    main:", "      %x = calldataload 0", "      %y = calldataload 32"]
+        two = r.random() < 0.5
+        m.append("      %r1 = invoke @callee, %x, %y")
+        if two:
+            m += ["      %s = dalloca 32", "      mstore %s, %r1", "      %r2 = invoke @callee, %y, %x", "      %r1b = mload %s",
+                  "      mstore 0, %r1b", "      mstore 32, %r2", "      return 0, 64"]
+        else:
+            m += ["      mstore 0, %r1", "      return 0, 32"]
+        src = "function main {\n" + "\n".join(m) + "\n}\n\nfunction callee {\n" + "\n".join(c) + "\n}\n"
+        cases = []
+        for _ in range(3):
+            x, y = r.choice([0, 1, 5, M256 - 1]), r.choice([0, 1, 7, 64])
+            # `invoke @callee, %x, %y`: find out the binding order from the first run; both orders are candidates
+            cases.append((x.to_bytes(32, "big") + y.to_bytes(32, "big"), x, y, two))
+        return src, cases, ev, shape
+
+
+PLAIN_RETPC_PROBE = """
+function main {
+    main:
+      %x = calldataload 0
+      %r1 = invoke @callee, %x
+      mstore 0, %r1
+      return 0, 32
+}
+
+function callee {
+    callee:
+      %a = param
+      %retpc = param
+      %v = add %a, 1
+      ret %retpc, %v
+}
+"""
+
+
+class ChainGen:
+    """already lowered functions with a hidden fmp_param whose use chain consists of assigns and phis (diamonds, loop-header
+    cycles), optionally ending in a real use; FmpPrunePass is run on them directly"""
+
+    def __init__(self, rnd):
+        self.rnd = rnd
+
+    def program(self):
+        r = self.rnd
+        use = r.choice(["none", "none", "mstore", "add", "deadadd", "bump", "ret", "publish"])
+        shape = r.choice(["line", "diamond", "loop"])
+        L = ["    f:", "      %a = param", "      %fmp = fmp_param", "      %retpc = retpc_param"]
+        last = "%fmp"
+        for k in range(r.randint(0, 3)):
+            L.append(f"      %g{k} = {last}")
+            last = f"%g{k}"
+        if shape == "diamond":
+            L += ["      jnz %a, @t, @e", "    t:", f"      %ft = {last}", "      jmp @j", "    e:", "      jmp @j", "    j:",
+                  f"      %fj = phi @t, %ft, @e, {last}"]
+            last = "%fj"
+        elif shape == "loop":
+            L += ["      %i0 = 0", "      jmp @head", "    head:", f"      %fh = phi @f, {last}, @body, %fb", "      %i = phi @f, %i0, @body, %i2",
+                  "      %c = lt %i, 3", "      jnz %c, @body, @exit", "    body:", "      %fb = %fh", "      %i2 = add %i, 1", "      jmp @head",
+                  "    exit:"]
+            last = "%fh"
+        v = "%a"
+        if use == "mstore":
+            L.append(f"      mstore 64, {last}")
+        elif use == "add":
+            L.append(f"      %w = add {last}, %a")
+            v = "%w"
+        elif use == "bump":
+            L += [f"      %p, %nx = bump 32, {last}", "      mstore %p, %a"]
+        elif use == "ret":
+            v = last
+        elif use == "deadadd":
+            L.append(f"      %w = add {last}, %a")
+        if use == "publish":        # a publishing function (dead chain, the adopted FMP is a constant): must be left alone
+            L.append("      ret %retpc, 4096, %a")
+            return "function f [fmp_lowered, fmp_publishes] {\n" + "\n".join(L) + "\n}\n", use
+        L.append(f"      ret %retpc, {v}")
+        return "function f [fmp_lowered] {\n" + "\n".join(L) + "\n}\n", use
+
+
+def run_chain(src):
+    from vyper.venom.analysis import IRAnalysesCache
+    from vyper.venom.parser import parse_venom
+    from vyper.venom.passes.fmp_lowering import FmpPrunePass
+    ctx = parse_venom(src)
+    with PruneObserver() as obs:
+        for fn in ctx.functions.values():
+            FmpPrunePass(IRAnalysesCache(fn), fn).run_pass()
+    return obs.samples, obs.errors
+
+
+def full_pipeline(src, level="O2"):
+    from vyper.compiler.settings import OptimizationLevel, VenomOptimizationFlags
+    from vyper.evm.assembler.core import assembly_to_evm
+    from vyper.venom import run_passes_on
+    from vyper.venom.parser import parse_venom
+    from vyper.venom.venom_to_assembly import VenomCompiler
+    ctx = parse_venom(src)
+    lvl = {"O2": OptimizationLevel.O2, "O3": OptimizationLevel.O3, "Os": OptimizationLevel.Os}[level]
+    run_passes_on(ctx, VenomOptimizationFlags(level=lvl, disable_inlining=True), disable_mem_checks=True)
+    arity = arity_check(ctx)
+    code, _ = assembly_to_evm(VenomCompiler(ctx).generate_evm_assembly())
+    return ctx, code, arity
+
+
+def arity_check(ctx):
+    """independent of call_layout: every invoke passes exactly the callee's plain params plus one hidden operand iff the
+    callee (still) has an fmp_param"""
+    from vyper.venom.basicblock import IRLabel
+    bad = []
+    for fn in ctx.functions.values():
+        for bb in fn.get_basic_blocks():
+            for i in bb.instructions:
+                if i.opcode != "invoke" or not isinstance(i.operands[0], IRLabel):
+                    continue
+                cal = ctx.functions.get(i.operands[0])
+                if cal is None:
+                    continue
+                ops = [x.opcode for x in cal.entry.instructions]
+                want = 1 + ops.count("param") + (1 if "fmp_param" in ops else 0)
+                if len(i.operands) != want:
+                    bad.append(f"{fn.name.value}: `{i}` has {len(i.operands)} operands, callee {cal.name.value} expects {want}")
+    return bad
+
+
+def run_code(code, calldatas):
+    from pyrevm import EVM, AccountInfo
+    outs = []
+    for cd in calldatas:
+        evm = EVM()
+        caller, addr = "0x" + "10" * 20, "0x" + "20" * 20
+        evm.set_balance(caller, 1)
+        evm.insert_account_info(addr, AccountInfo(code=code))
+        try:
+            outs.append(("ok", bytes(evm.message_call(caller=caller, to=addr, calldata=cd, gas=3_000_000)).hex()))
+        except Exception as e:  # noqa
+            outs.append(("revert", str(e)[:40]))
+    return outs
+
+
+def _words(h):
+    return [int(h[k:k + 64], 16) for k in range(0, len(h), 64)]
+
+
+def prune_member(src, cases, ev, level):
+    """returns (samples, errors, problem or None)"""
+    with PruneObserver() as obs:
+        _, code, arity = full_pipeline(src, level)
+    with PruneObserver(enabled=False):
+        _, code0, arity0 = full_pipeline(src, level)
+    cds = [c[0] for c in cases]
+    o1, o0 = run_code(code, cds), run_code(code0, cds)
+    prob = None
+    if arity or arity0:
+        prob = {"kind": "arity", "detail": (arity or arity0)[:3]}
+    for (cd, x, y, two), a, b in zip(cases, o1, o0):
+        if prob:
+            break
+        if a != b:
+            prob = {"kind": "differential", "calldata": cd.hex(), "with_prune": a, "without_prune": b}
+            break
+        if a[0] != "ok":
+            prob = {"kind": "revert", "calldata": cd.hex(), "with_prune": a}
+            break
+        got = _words(a[1])
+        # operand order of `invoke @callee, %x, %y` w.r.t. the params: accept the order the unpruned build uses, but the
+        # value must be the callee's function of the two arguments
+        cands = [[ev(x, y)] + ([ev(y, x)] if two else []), [ev(y, x)] + ([ev(x, y)] if two else [])]
+        if got not in cands:
+            prob = {"kind": "value", "calldata": cd.hex(), "got": [hex(g) for g in got], "expected_one_of": [[hex(v) for v in c_] for c_ in cands]}
+    return obs.samples, obs.errors, prob
+
+
+def part_prune(ctx, deps=None):
+    b = ctx.coq_build_cached(PROOF_FILES[:2] + PRUNE_FILES, deps=list(deps) if deps is not None else DEPS, timeout=600)
+    rnd = random.Random(ctx.seed * 7919 + 13)
+    stats = {"programs": 0, "pipeline_rejected": 0, "invocations": 0, "pruned": 0, "unchanged": 0, "accepted": 0, "rejected": 0,
+             "evm_executions": 0, "problems": 0, "signature_errors": 0, "export_errors": 0, "chain_instructions": 0}
+    samples, probs = [], []
+    g = PruneGen(rnd)
+    n = 30 if ctx.tier == "quick" else 300
+    progs = []
+    for k in range(n):
+        src, cases, ev, shape = g.program()
+        progs.append((f"prunegen{k}:{shape}", src, cases, ev))
+    for name, src, cases, ev in progs:
+        stats["programs"] += 1
+        level = rnd.choice(["O2", "O2", "O3", "Os"])
+        try:
+            ss, ee, prob = prune_member(src, cases, ev, level)
+        except Exception as e:  # noqa
+            stats["pipeline_rejected"] += 1
+            stats.setdefault("first_pipeline_error", repr(e)[:300])
+            continue
+        stats["evm_executions"] += 2 * len(cases)
+        stats["export_errors"] += len(ee)
+        for s_ in ss:
+            s_["prog"], s_["src"], s_["level"] = name, src, level
+        samples += ss
+        if prob is not None:
+            probs.append(dict(prob, venom=src, prog=name, level=level))
+    # lowered functions with assign / phi chains, the pass run directly
+    cg = ChainGen(rnd)
+    stats["chain_programs"] = 0
+    stats["chain_with_real_use_pruned"] = 0
+    for k in range(40 if ctx.tier == "quick" else 400):
+        src, use = cg.program()
+        try:
+            ss, ee = run_chain(src)
+        except Exception as e:  # noqa
+            stats["chain_crashes"] = stats.get("chain_crashes", 0) + 1
+            if stats["chain_crashes"] <= 2:
+                ctx.violation("failing-input", "FmpPrunePass raises on a well-formed lowered function", {"venom": src, "error": repr(e)[:600]},
+                              key="prune:crash")
+            continue
+        stats["chain_programs"] += 1
+        stats["export_errors"] += len(ee)
+        for s_ in ss:
+            s_["prog"], s_["src"], s_["level"] = f"chaingen{k}:{use}", src, "direct"
+            if use != "none" and s_["before"] != s_["after"]:
+                stats["chain_with_real_use_pruned"] += 1
+        samples += ss
+    # functions that publish (dret family) through the full pipeline: their hidden param must stay
+    for name, src, cases in family(rnd, 8 if ctx.tier == "quick" else 60):
+        stats["programs"] += 1
+        try:
+            with PruneObserver() as obs_:
+                _, code, arity = full_pipeline(src)
+        except Exception as e:  # noqa
+            stats["pipeline_rejected"] += 1
+            stats.setdefault("first_pipeline_error", repr(e)[:300])
+            continue
+        outs = run_code(code, [cd for cd, _ in cases])
+        stats["evm_executions"] += len(cases)
+        for s_ in obs_.samples:
+            s_["prog"], s_["src"], s_["level"] = name, src, "O2"
+        samples += obs_.samples
+        for (cd, exp), (st, data) in zip(cases, outs):
+            got = _words(data) if st == "ok" else None
+            if arity or got is None or len(got) != len(exp) or any(e_ is not None and e_ != g_ for e_, g_ in zip(exp, got)):
+                probs.append({"kind": "arity" if arity else "value", "detail": arity[:3], "calldata": cd.hex(), "got": data if got is None else [hex(g_) for g_ in got],
+                              "expected": [hex(x) if x is not None else None for x in exp], "venom": src, "prog": name, "level": "O2"})
+                break
+    # probe: a callee that does not need the FMP and names its return PC with a plain `param`
+    try:
+        full_pipeline(PLAIN_RETPC_PROBE)
+        stats["plain_retpc_probe"] = "ok"
+    except Exception as e:  # noqa
+        stats["plain_retpc_probe"] = "rejected"
+        msg = "; ".join(str(x).splitlines()[0] for x in getattr(e, "exceptions", [e]))[:400]
+        ctx.violation("failing-input", "a valid raw Venom program (callee without dynamic allocation, return PC bound by a plain `param`) is "
+                      "rejected by the pipeline's own post-lowering check: FmpLoweringPass seals the callee without normalizing its "
+                      "return-PC param to `retpc_param`, so the sealed function counts the return PC as a user argument",
+                      {"venom": PLAIN_RETPC_PROBE, "error": msg, "how": "parse_venom + run_passes_on(O2, disable_inlining=True)"},
+                      key="fmp:plain-retpc-param-sealed")
+    # the unit-test programs through the full pipeline (no expected values)
+    with PruneObserver() as obs:
+        for name, src in c14_fmp.unit_test_programs():
+            k = len(obs.samples)
+            try:
+                full_pipeline(src)
+            except Exception:  # noqa
+                pass
+            for s_ in obs.samples[k:]:
+                s_["prog"], s_["src"], s_["level"] = name, src, "O2"
+    samples += obs.samples
+    stats["export_errors"] += len(obs.errors)
+    stats["invocations"] = len(samples)
+    stats["problems"] = len(probs)
+    if stats["programs"] and stats["pipeline_rejected"] * 4 > stats["programs"]:
+        ctx.violation("correspondence-broken", "most prune family programs no longer go through the pipeline", dict(stats))
+    found = False
+    for p_ in probs[:2]:
+        found = True
+        ctx.violation("failing-input", "FmpPrunePass / the hidden-FMP calling convention changes the behaviour of a program ("
+                      + p_["kind"] + ")", p_, key="prune:" + p_["prog"])
+    todo, seen = [], set()
+    for s_ in samples:
+        changed = s_["before"] != s_["after"]
+        sa, sb = s_["sig_after"], s_["sig_before"]
+        if not changed:
+            stats["unchanged"] += 1
+            if repr(sa) != repr(sb) or (sa is not None and bool(sa.has_fmp_param) != bool(s_["fmp_param_after"])):
+                stats["signature_errors"] += 1
+                if stats["signature_errors"] <= 2:
+                    ctx.violation("theorem-broken", "FmpPrunePass changed the FMP signature of a function it did not change",
+                                  {"theorem": "prune_check_sound (signature side condition)", "function": s_["text_after"][:3000],
+                                   "sig_before": repr(sb), "sig_after": repr(sa)})
+            continue
+        stats["pruned"] += 1
+        stats["chain_instructions"] += len(s_["deleted"])
+        if sb is not None and sb.publishes:
+            stats["signature_errors"] += 1
+            if stats["signature_errors"] <= 2:
+                ctx.violation("theorem-broken", "FmpPrunePass pruned a publishing function (its callers adopt the returned FMP; the sealed "
+                          "signature loses the publish bit)",
+                              {"theorem": "prune_check_sound (signature side condition)", "function_before": s_["text_before"][:3000],
+                               "function_after": s_["text_after"][:3000], "sig_before": repr(sb), "sig_after": repr(sa)})
+        if sa is None or sa.has_fmp_param or sa.publishes or s_["fmp_param_after"] or len(s_["hidden"]) != 1:
+            stats["signature_errors"] += 1
+            if stats["signature_errors"] <= 2:
+                ctx.violation("theorem-broken", "FmpPrunePass changed a function but did not reseal its signature to (no fmp param, no publish)",
+                              {"theorem": "prune_check_sound (signature side condition)", "function_before": s_["text_before"][:3000],
+                               "function_after": s_["text_after"][:3000], "sig_after": repr(sa)})
+        key = (s_["before"], s_["after"])
+        if key not in seen:
+            seen.add(key)
+            todo.append(s_)
+    res = None
+    if b["ok"] and todo:
+        try:
+            res = prune_evaluate(todo, shard=max(1, len(todo) // 12), timeout=900)
+        except RuntimeError as e:
+            ctx.violation("correspondence-broken", "the prune validator could not be evaluated", {"error": str(e)[-1500:]})
+    for k, s_ in enumerate(todo):
+        if res is None:
+            break
+        if res[k] == [1]:
+            stats["accepted"] += 1
+            continue
+        stats["rejected"] += 1
+        if stats["rejected"] <= 2 and not found:
+            ctx.violation("theorem-broken", "prune_check_sound does not apply: FmpPrunePass deleted something other than the dead hidden "
+                          "fmp_param and its assign/phi chain (prune_check = false; function " + s_["name"] + " of " + str(s_.get("prog")) + ")",
+                          {"theorem": "prune_check_sound", "function_before": s_["text_before"][:4000], "function_after": s_["text_after"][:4000],
+                           "deleted": s_["deleted"], "venom": s_.get("src")})
+    if not b["ok"] and not found:
+        ctx.violation("theorem-broken", f"{b.get('failed_lemma')} in {b['file']}",
+                      {"theorem": b.get("failed_lemma"), "file": b["file"], "coq_output": b["out"][-1500:]})
+    if stats["pruned"] == 0:
+        ctx.violation("correspondence-broken", "FmpPrunePass never pruned anything in the family", dict(stats))
+    ctx.corr["fmp_prune"] = stats
+    ctx.log("prune " + " ".join(f"{k}={v}" for k, v in stats.items()))
+    ctx.trusted.append("coq/C14R/PruneProofs.v hypothesis: `assign` and `phi` only bind their outputs (no effect on FMP / memory / world, "
+                       "fall through); the caller side of the convention (invoke operand counts) is checked in python after the "
+                       "pipeline and by differential EVM runs (prune on / off)")
     return stats["accepted"] + stats["evm_executions"]
